@@ -8,6 +8,7 @@ import (
 	"context"
 	"encoding/json"
 	"fmt"
+	"math"
 	"math/rand/v2"
 	"runtime"
 	"sync"
@@ -46,6 +47,12 @@ func (semEngine) Gen(seed uint64, params map[string]any) json.RawMessage {
 		sc.Mode = m
 	}
 	sc.Size = int64(r.IntN(7))
+	// one scenario in five uses an "unlimited" semaphore and weights near MaxInt64 (the repository itself
+	// does: NewWeighted(math.MaxInt64) + WaitEmpty = Acquire(size)), where cur+n overflows int64
+	huge := r.IntN(5) == 0
+	if huge {
+		sc.Size = math.MaxInt64 - int64(r.IntN(3))
+	}
 	nc := 2 + r.IntN(4)
 	sc.Strategy = r.IntN(vrt.NumStrategies)
 	sc.TimeAdvPct = []int{0, 0, 2, 10, 30}[r.IntN(5)]
@@ -58,7 +65,12 @@ func (semEngine) Gen(seed uint64, params map[string]any) json.RawMessage {
 			total++
 			var op semOp
 			w := r.IntN(100)
-			n := int64(r.IntN(int(sc.Size) + 2))
+			var n int64
+			if huge {
+				n = []int64{0, 1, 2, 3, sc.Size, sc.Size - 1, math.MaxInt64, math.MaxInt64 - 1, 1 << 62}[r.IntN(9)]
+			} else {
+				n = int64(r.IntN(int(sc.Size) + 2))
+			}
 			switch {
 			case w < 38:
 				op = semOp{Kind: "acquire", N: n}
@@ -76,8 +88,14 @@ func (semEngine) Gen(seed uint64, params map[string]any) json.RawMessage {
 				op = semOp{Kind: "release_all"}
 			case w < 83:
 				op = semOp{Kind: "force", N: int64(r.IntN(4))}
+				if huge { // the total weight must stay representable: forcing on top of ~MaxInt64 held is outside any contract
+					op = semOp{Kind: "observe"}
+				}
 			case w < 93:
 				op = semOp{Kind: "setsize", N: int64(r.IntN(8))}
+				if huge && r.IntN(2) == 0 {
+					op.N = math.MaxInt64 - int64(r.IntN(2))
+				}
 			default:
 				op = semOp{Kind: "observe"}
 			}
@@ -126,7 +144,7 @@ func (semEngine) Shrink(raw json.RawMessage) []json.RawMessage {
 			if op.CancelAt > 1 {
 				emit(func(c *semScenario) { c.Clients[ci][oi].CancelAt = 1 })
 			}
-			if op.N > 0 && op.Kind != "setsize" {
+			if op.N > 0 && op.N < 64 && op.Kind != "setsize" {
 				emit(func(c *semScenario) { c.Clients[ci][oi].N-- })
 			}
 		}
@@ -166,7 +184,7 @@ var semModel = porcupine.Model{
 			if !out.OK {
 				return true, st // failing is always permitted and has no effect
 			}
-			if st.cur+in.N > st.size {
+			if in.N > st.size-st.cur { // (size-cur cannot overflow: both are >= 0 or cur exceeds size by a small forced amount)
 				return false, st
 			}
 			st.cur += in.N
